@@ -7,7 +7,7 @@ import tempfile
 import zlib
 
 from engine import SPEC, gen_states, pool_map
-from readers import read_out, join_lines, run_cli, split_tag, write_text, workdir
+from readers import zname, read_out, join_lines, run_cli, split_tag, write_text, workdir
 
 DATA = json.load(open(os.path.join(SPEC, "data", "phase_pool.json")))
 
@@ -33,7 +33,7 @@ def run_case(job):
     _rd.CASE = str(cid)
     d = workdir("phase_", cid)
     try:
-        gaf = os.path.join(d, "a.gaf" + (".gz" if storage == "bgzf" else ""))
+        gaf = os.path.join(d, zname("a.gaf", cid) if storage == "bgzf" else "a.gaf")
         lines = [gaf_line(r, k) for k, r in enumerate(recs)]
         write_text(gaf, join_lines(lines, cid), storage, block=150)
         tp = os.path.join(d, "h.tsv")
